@@ -18,6 +18,7 @@ import (
 	"sync"
 	"testing"
 	"testing/synctest"
+	"time"
 
 	"oras.land/oras-go/v2/registry/remote/auth"
 	"verif/harness/vh"
@@ -45,6 +46,9 @@ type Req struct {
 	Repo   string   `json:"repo"`
 	Method string   `json:"method"`
 	Hints  []string `json:"hints"` // scope strings attached to the context
+	// Deadline: this request's context has a deadline, and a credential lookup made on its behalf waits for it and
+	// returns the context's error (a request that gives up while others wait for the token fetch it is running)
+	Deadline bool `json:"deadline,omitempty"`
 }
 
 type Scenario struct {
@@ -247,12 +251,16 @@ func (w *world) RoundTrip(req *http.Request) (*http.Response, error) {
 func runScenario(t *testing.T, sc *Scenario, tr *vh.Tracer) (hang bool) {
 	tr.Begin(sc.ID)
 	synctest.Test(t, func(t *testing.T) {
-		w := &world{sc: sc, hosts: map[string]hostCfg{}, tr: tr, s: &vh.Sched{}, nsend: map[int]int{}}
+		w := &world{sc: sc, hosts: map[string]hostCfg{}, tr: tr, s: &vh.Sched{IdleSleep: 2 * time.Hour, IdleMax: 3}, nsend: map[int]int{}}
 		for h, c := range sc.Hosts {
 			w.hosts[h] = c
 		}
 		cl := &auth.Client{Client: &http.Client{Transport: w}}
-		cl.Credential = func(_ context.Context, host string) (auth.Credential, error) {
+		cl.Credential = func(ctx context.Context, host string) (auth.Credential, error) {
+			if _, has := ctx.Deadline(); has {
+				<-ctx.Done()
+				return auth.EmptyCredential, ctx.Err()
+			}
 			if c, ok := w.hosts[host]; ok {
 				return creds(host, c.Flow), nil
 			}
@@ -287,6 +295,11 @@ func runScenario(t *testing.T, sc *Scenario, tr *vh.Tracer) (hang bool) {
 				go func() {
 					defer wg.Done()
 					ctx := context.WithValue(context.Background(), ctxKey{}, r.ID)
+					if r.Deadline {
+						var cancel context.CancelFunc
+						ctx, cancel = context.WithTimeout(ctx, time.Hour)
+						defer cancel()
+					}
 					if len(r.Hints) > 0 {
 						ctx = auth.WithScopesForHost(ctx, r.Host, r.Hints...)
 					}
@@ -297,7 +310,7 @@ func runScenario(t *testing.T, sc *Scenario, tr *vh.Tracer) (hang bool) {
 						st = resp.StatusCode
 						resp.Body.Close()
 					}
-					tr.Emit(map[string]any{"e": "ret", "id": r.ID, "status": st, "err": err != nil})
+					tr.Emit(map[string]any{"e": "ret", "id": r.ID, "status": st, "err": err != nil, "deadline": r.Deadline})
 				}()
 			}
 			go func() { wg.Wait(); close(done) }()
@@ -364,6 +377,9 @@ func genScenario(rng *rand.Rand, id int) Scenario {
 			r := first
 			r.ID = id0
 			phase = append(phase, r)
+		}
+		if rng.Intn(3) == 0 {
+			phase[0].Deadline = true
 		}
 		sc.Phases = append(sc.Phases, phase, []Req{newReq(h)})
 		sc.Coalesce = true
